@@ -164,7 +164,9 @@ CHECKS = {
              '(C03_batch_covers; its core C03_refine_covers holds for ANY split into groups that respects the coarse '
              'fragments, so it does not depend on how re resolves ambiguous splits). (2) Whenever a run ends with a check that '
              'reported no failure, every example clean keeps is matched by a returned expression; clean discards exactly '
-             'nulls, zero counts and (on request) empties; the check is complete. The extracted model replays every real run '
+             'nulls, zero counts and (on request) empties; the check is complete. (3) The extend loop always ends (each unsampled '
+             'pass that does not stop adds a stored string the working examples lacked: C03_loop_terminates) and when it ends '
+             'every string the last check found unmatched is a working example (C03_last_failures_are_working_examples). The extracted model replays every real run '
              'from its recorded oracle tables (group splits, re.match results, random.sample choices) and must return exactly '
              'the same expressions and working examples; the oracle hypotheses of (1) are evaluated by the extracted model on '
              'every recorded split; character-level semantics, regex texts and classifications are swept against CPython re; '
@@ -189,16 +191,24 @@ CHECKS = {
         technique='Coq proof (shape/count/tagging theorems over the Extractor model) + extracted-model replay + expression oracle',
         design='7 C13'),
     'C14': dict(
-        text='Theorems over a model of how the Extractor uses the global generator (any generator: state type, seeding, one '
-             'transition per sample): with a seed the global state after the call equals the state before it, and the states '
-             'the samples are drawn from depend on the seed only. The model predicts the exact getstate/seed/sample/setstate '
-             'call sequence of every real run; the Extractor model replays every run; reordering, list-vs-dictionary, repeated '
-             'calls, repeated examples, seeded reproducibility (forced sampling and >4000-string inputs) and the generator '
-             'state are checked directly.',
-        note='partial: invariance under reordering / multiplicity is decided by the run-time oracle and the replay (the model\'s '
-             'VRLE sort and per-fragment accumulators), not yet by a permutation theorem; random is CPython\'s.',
-        technique='Coq proof (generator protocol: restored state, seed-only dependence) + call-trace correspondence + '
-                  'extracted-model replay + reordering/reproducibility oracle',
+        text='Theorems over the executable model of the whole Extractor: (1) for every character table, option set, oracle '
+             'tables and sample selections, when the distinct strings do not exceed do_all_exceptions (4000 by default, so '
+             'nothing is sampled) any reordering of the input items gives the same list of expressions '
+             '(C14_run_order_independent); repeating an example any number of times changes nothing, and a list gives what any '
+             'frequency dictionary with the same non-zero keys gives (C14_run_repeat_independent, C14_run_list_or_dict; no '
+             'pruning option). These rest on: clean is a counter (C14_clean_order_independent), the coarse patterns are a '
+             'function of the set of encodings (canonical sort), expand_or_falsify commutes and each per-fragment accumulator '
+             'is seen by the refinement only through an order-independent view (C14_batch_order_independent; needs '
+             'max_strings_in_group >= 1, with a counterexample for 0). (2) Generator protocol, for any generator: with a seed '
+             'the global state after the call equals the state before it and the states samples are drawn from depend on the '
+             'seed only. The model predicts the exact getstate/seed/sample/setstate call sequence of every real run and '
+             'replays every run; reordering, list-vs-dictionary, repeated calls, repeated examples, seeded reproducibility '
+             '(forced sampling and >4000-string inputs) and the generator state are also checked directly.',
+        note='partial: under sampling (more distinct strings than do_all_exceptions, or small Size settings) the sample '
+             'drawn depends on the stored order, so only seeded reproducibility and the generator protocol are claimed there; '
+             'the regex memo is not modelled (repeat-call checks are run-time); random is CPython\'s.',
+        technique='Coq proof (whole-run order / multiplicity / list-vs-dict independence without sampling; generator protocol) '
+                  '+ extracted-model replay + call-trace correspondence + reordering/reproducibility oracle',
         design='7 C14'),
     'C05': dict(
         text='Theorems over a model of PandasComparison.check_dataframe for all frames, option records (None/False/list per '
